@@ -47,6 +47,10 @@ pub enum Fault {
     /// hook-free, directory-component patterns: the directory of archive offset `off` is a symbolic link into a file
     /// system of another kind where nothing can be created (/proc/self): rename fails one way, the copy fallback another
     ForeignDir { r: usize, off: u32 },
+    /// hook-free, compressing patterns with a window of one: the archive name is a symbolic link to /dev/full, so the
+    /// archive can be created but every byte written to it is refused (ENOSPC) - a device that fills up while the
+    /// rolled file is being compressed; small archives meet the error only when the encoder is finished/flushed
+    FullDevice { r: usize },
 }
 
 /// One faulted execution = what a replay file holds.
@@ -66,6 +70,10 @@ pub fn strategy() -> impl Strategy<Value = Case> {
     // (u32::MAX stands for "the window ends at index u32::MAX")
     let roller = (prop::sample::select(vec![0u32, 1, 7, 0, 1, 7, u32::MAX]), 1u32..=6, prop::sample::select(vec!["a.{}.log", "arch/{}/a.log", "a.{}.log.gz", "arch/{}/a.{}.log"]))
         .prop_map(|(base, count, p)| RollSpec::Fixed { base: if base == u32::MAX { u32::MAX - (count - 1) } else { base }, count, pattern: p.to_string() });
+    let roller = prop_oneof![
+        8 => roller,
+        1 => (prop::sample::select(vec![0u32, 1, 7]), prop::sample::select(vec!["a.{}.log.gz", "a.{}.log.zst", "arch/{}/a.log.gz"])).prop_map(|(base, p)| RollSpec::Fixed { base, count: 1, pattern: p.to_string() }),
+    ];
     let step = || (prop_oneof![4 => 0usize..100, 1 => 1000usize..1040], prop_oneof![3 => Just(0u32), 2 => 1u32..4]);
     (trigger, roller, prop::bool::weighted(0.6), prop::collection::vec(step(), 5..=40), 1usize..=3, prop::collection::vec(step(), 3..=25), prop::bool::weighted(0.25))
         .prop_map(|(trigger, roller, append_mode, history, persist, continuation, cross_device)| Case { trigger, roller, append_mode, history, persist, continuation, cross_device })
@@ -119,6 +127,9 @@ fn managed(dir: &Path, roller: &RollSpec, active: &Path) -> Vec<(String, Vec<u8>
     let mut v = vec![];
     for off in 0..window_count(roller) {
         let p = archive_path(dir, roller, off).unwrap();
+        if is_full_device_link(&p) {
+            continue; // (reading /dev/full never ends)
+        }
         if let Ok(raw) = std::fs::read(&p) {
             let name = p.to_string_lossy().to_string();
             if let Ok(dec) = decoded(&name, &raw) {
@@ -329,6 +340,15 @@ fn execute_in(dir: &Path, image: &Path, f: &Faulted, obs: &mut Obs) -> Result<Re
                 obstacle_placed = true;
             }
         }
+        if let Fault::FullDevice { r } = &f.fault {
+            let rot = state.lock().unwrap().rotation;
+            let p = archive_path(dir, &case.roller, 0).unwrap();
+            if rot == *r && !obstacle_placed && fault_lifted_at.is_none() && std::fs::symlink_metadata(&p).is_err() {
+                std::fs::create_dir_all(p.parent().unwrap()).unwrap();
+                std::os::unix::fs::symlink("/dev/full", &p).unwrap();
+                obstacle_placed = true;
+            }
+        }
         // an obstacle directory that sits at a *source* name is renamed along by the roller: locate it afresh
         let obstacle_at: Option<PathBuf> = (0..window_count(&case.roller))
             .filter_map(|o| archive_path(dir, &case.roller, o))
@@ -338,7 +358,8 @@ fn execute_in(dir: &Path, image: &Path, f: &Faulted, obs: &mut Obs) -> Result<Re
                     .filter_map(|o| archive_path(dir, &case.roller, o))
                     .filter_map(|p| p.parent().map(|x| x.to_path_buf()))
                     .find(|slot| slot != dir && std::fs::symlink_metadata(slot).map_or(false, |m| m.file_type().is_symlink() || m.is_file()))
-            });
+            })
+            .or_else(|| (0..window_count(&case.roller)).filter_map(|o| archive_path(dir, &case.roller, o)).find(|p| is_full_device_link(p)));
         let before = managed(dir, &case.roller, &active);
         let injected_before = state.lock().unwrap().injected;
         let image_before = state.lock().unwrap().image_taken;
@@ -458,6 +479,7 @@ pub fn check_faulted(tmp: &Path, f: &Faulted, obs: &mut Obs) -> CaseResult {
     let shift_step = match &f.fault {
         Fault::Error { s, .. } | Fault::Crash { s, .. } => (*s as u32) < count.saturating_sub(1),
         Fault::Obstacle { off, .. } | Fault::DanglingDir { off, .. } | Fault::FileAtDir { off, .. } | Fault::ForeignDir { off, .. } => *off > 0,
+        Fault::FullDevice { .. } => true,
         Fault::None => false,
     };
     let pre = matches!(f.case.trigger, TrigSpec::Scripted(_, true) | TrigSpec::Time(..));
@@ -467,6 +489,7 @@ pub fn check_faulted(tmp: &Path, f: &Faulted, obs: &mut Obs) -> CaseResult {
         Fault::Error { .. } => "fault=injected-error",
         Fault::Crash { .. } => "fault=crash-image",
         Fault::Obstacle { .. } => "fault=obstacle-directory",
+        Fault::FullDevice { .. } => "fault=archive-on-a-full-device",
         Fault::DanglingDir { .. } => "fault=dangling-symlink-directory",
         Fault::FileAtDir { .. } => "fault=regular-file-at-slot-directory",
         Fault::ForeignDir { .. } => "fault=slot-directory-is-a-link-into-procfs",
@@ -495,7 +518,12 @@ pub fn expand(tmp: &Path, case: &Case) -> Result<Vec<Faulted>, Failure> {
     }
     // hook-free cross-check on plain (rename-based) patterns: obstacle at the destination of the final move / first shift
     if let RollSpec::Fixed { count, pattern, .. } = &case.roller {
-        if !pattern.ends_with(".gz") {
+        if *count == 1 && (pattern.ends_with(".gz") || pattern.ends_with(".zst")) && Path::new("/dev/full").exists() {
+            for r in 0..rep.rotations.min(3) {
+                out.push(Faulted { case: case.clone(), fault: Fault::FullDevice { r } });
+            }
+        }
+        if !pattern.ends_with(".gz") && !pattern.ends_with(".zst") {
             // rotation r is the first one to use index base+r: an obstacle there fails its first step
             for r in 0..rep.rotations.min(*count as usize) {
                 out.push(Faulted { case: case.clone(), fault: Fault::Obstacle { r, off: r as u32 } });
